@@ -83,7 +83,7 @@ func (r *Run) Thorough() bool { return r.Tier == "thorough" }
 // factors bring each quick run to roughly 20-40 s of monitor time on an idle 16-core machine.
 var quickScale = map[string]int{
 	"C02": 6, "C03": 4, "C04": 8, "C05": 10, "C06": 6, "C07": 4, "C10": 6, "C11": 8,
-	"C13": 4, "C14": 10, "C15": 10, "C16": 5, "C20": 4,
+	"C13": 4, "C14": 10, "C15": 10, "C16": 5, "C20": 10,
 }
 
 // Pick returns q (times the property's quick scale) for the quick tier and t for the thorough tier.
